@@ -46,7 +46,10 @@ _worker_ready = False
 def _worker_init() -> None:
     global _worker_ready
     env.setup()
+    import faulthandler
     import logging
+
+    faulthandler.enable(all_threads=True)  # a crash inside JAX/XLA leaves the Python stacks on stderr
 
     logging.getLogger('jax._src.debugging').setLevel(logging.CRITICAL)
     logging.getLogger('jax').setLevel(logging.CRITICAL)
